@@ -240,7 +240,7 @@ def preprocess_order(rep: C.Report) -> None:
         if len(fns) != 1:
             ob.verdict, ob.detail = C.NOT_ENCODABLE, "preprocess_text not found"
             return
-        ps = PS.passes(fns[0])
+        ps = PS.passes(fns[0], tree)
         paired = PS.find_pass(ps, ["<nowiki>x</nowiki>"], ["<nowiki/>"])
         selfc = PS.find_pass(ps, ["<nowiki/>", "<nowiki />"], ["<nowiki>x</nowiki>"])
         comment = PS.find_pass(ps, ["<!--x-->"], ["<nowiki/>"])
